@@ -38,9 +38,16 @@ open WV WV.Gen
 
 /-- what `bytes_to_dict(body)` / `"pake_v1" in payload` / `hexstr_to_bytes` make of a PAKE body -/
 inductive PakeMsg where
-  | raise                 -- not JSON / not a dict / value not hex: an exception
+  | raise                 -- not JSON / not a dict / value not hex: an exception, caught in `got_pake` (⇒ bad)
   | missing               -- a dict without `pake_v1`
   | elem (e : Bytes)      -- `pake_v1` present, decoded
+  deriving DecidableEq, Repr
+
+/-- what `self._sp.finish(msg2)` does, as far as `compute_key` can tell -/
+inductive PakeResult where
+  | key (k : Bytes)
+  | refused     -- raises AssertionError / ValueError / SPAKEError / NotOnCurve (malformed, off-side, off-curve,
+                -- reflected — every class spake2's `finish` raises): caught ⇒ `B.scared()`
   deriving DecidableEq, Repr
 
 structure Crypto where
@@ -53,8 +60,9 @@ structure Crypto where
   boxOpen : Bytes → Bytes → Option Bytes
   /-- `SPAKE2_Symmetric(password).start()` for a given secret scalar -/
   pakeStart : Bytes → Bytes → Bytes
-  /-- `.finish(msg2)`; `none` = the exception spake2 raises (reflection, wrong side, bad element) -/
-  pakeFinish : Bytes → Bytes → Bytes → Option Bytes
+  /-- `.finish(msg2)`; `none` = the exception spake2 raises (reflection, wrong side, bad element), which
+      `compute_key` turns into `B.scared()` -/
+  pakeFinish : Bytes → Bytes → Bytes → PakeResult
   pakeEncode : Bytes → Bytes
   pakeDecode : Bytes → PakeMsg
   /-- does `bytes_to_dict(plaintext)` succeed in `Boss.process_version` -/
@@ -71,7 +79,7 @@ structure Crypto.Ideal (C : Crypto) : Prop where
   /-- a sealing under `k` opens under no other key -/
   box_key : ∀ k k' n p, k ≠ k' → C.boxOpen k' (C.boxSeal k n p) = none
   /-- SPAKE2_Symmetric refuses its own element -/
-  pake_reflect : ∀ s pw, C.pakeFinish s pw (C.pakeStart s pw) = none
+  pake_reflect : ∀ s pw, C.pakeFinish s pw (C.pakeStart s pw) = .refused
 
 /-! ## derive_phase_key -/
 
@@ -126,12 +134,12 @@ def classify (phase : String) : PhaseClass :=
 /-! ## state -/
 
 inductive Err where
-  | noTransition | assertion | unicodeEncode | decode | pake | unmodelled
+  | noTransition | assertion | unicodeEncode | decode | unmodelled
   deriving DecidableEq, Repr
 
 def Err.name : Err → String
   | .noTransition => "NoTransition" | .assertion => "AssertionError" | .unicodeEncode => "UnicodeEncodeError"
-  | .decode => "DecodeError" | .pake => "PakeError" | .unmodelled => "UNMODELLED"
+  | .decode => "DecodeError" | .unmodelled => "UNMODELLED"
 
 structure Frame where
   side : String
@@ -400,7 +408,7 @@ def rInput (C : Crypto) (cfg : Cfg) (i : Receive.Input) (a : RArg) (s : St) : R 
 /-- `Receive.got_message(side, phase, body)` -/
 def rGotMessage (C : Crypto) (cfg : Cfg) (f : Frame) (s : St) : R :=
   match s.rkey with
-  | none => (s, some .assertion)                      -- `assert self._key`
+  | none => rInput C cfg .got_message_bad .bad s     -- `if self._key is None: self.got_message_bad(); return`
   | some k =>
     match phaseKey? C k f.side f.phase with
     | none => (s, some .unicodeEncode)
@@ -424,8 +432,8 @@ def skOut (C : Crypto) (cfg : Cfg) (a : KArg) (o : SortedKey.Output) (s : St) : 
     | none => (s, some .unmodelled)
     | some pw =>
       match C.pakeFinish cfg.secret pw e with
-      | none => (s, some .pake)
-      | some k =>
+      | .refused => bossInput C cfg .scared .none s    -- `except (AssertionError, ValueError, SPAKEError, NotOnCurve): B.scared(); return`
+      | .key k =>
         match bossInput C cfg .got_key (.bytes k) s with
         | (s1, some e) => (s1, some e)
         | (s1, none) =>
@@ -446,8 +454,8 @@ def skInput (C : Crypto) (cfg : Cfg) (i : SortedKey.Input) (a : KArg) (s : St) :
 /-- `_SortedKey.got_pake(body)` -/
 def skGotPake (C : Crypto) (cfg : Cfg) (body : Bytes) (s : St) : R :=
   match C.pakeDecode body with
-  | .raise => (s, some .decode)
-  | .missing => skInput C cfg .got_pake_bad .none s
+  | .raise => skInput C cfg .got_pake_bad .none s    -- `except (AssertionError, KeyError, TypeError, ValueError)`
+  | .missing => skInput C cfg .got_pake_bad .none s  -- `payload["pake_v1"]` raises KeyError
   | .elem e => skInput C cfg .got_pake_good (.elem e) s
 
 inductive KeyArg where
@@ -573,12 +581,12 @@ def expectedSkel : List (String × List (String × String)) :=
    ("Order.drain", [("for", "self._deliver")]),
    ("Order.deliver", [("-", "self._deliver")]),
    ("Order._deliver", [("-", "_R.got_message")]),
-   ("Receive.got_message", [("-", "derive_phase_key"), ("try", "decrypt_data"), ("except", "self.got_message_bad"), ("-", "self.got_message_good")]),
+   ("Receive.got_message", [("if", "self.got_message_bad"), ("-", "derive_phase_key"), ("try", "decrypt_data"), ("except", "self.got_message_bad"), ("-", "self.got_message_good")]),
    ("Receive.W_got_message", [("-", "_B.got_message")]),
    ("Receive.W_scared", [("-", "_B.scared")]),
    ("Receive.W_happy", [("-", "_B.happy")]),
-   ("_SortedKey.got_pake", [("if", "self.got_pake_good"), ("else", "self.got_pake_bad")]),
-   ("_SortedKey.compute_key", [("-", "_B.got_key"), ("-", "derive_phase_key"), ("-", "encrypt_data"), ("-", "_M.add_message"), ("-", "_R.got_key")]),
+   ("_SortedKey.got_pake", [("except", "self.got_pake_bad"), ("-", "self.got_pake_good")]),
+   ("_SortedKey.compute_key", [("except", "_B.scared"), ("-", "_B.got_key"), ("-", "derive_phase_key"), ("-", "encrypt_data"), ("-", "_M.add_message"), ("-", "_R.got_key")]),
    ("_SortedKey.scared", [("-", "_B.scared")]),
    ("Boss.got_message", [("if", "self._got_version"), ("else/if", "d_mo.group"), ("else/if", "self._got_dilate"), ("else/else/if", "self._got_phase"), ("else/else/else", "_UnknownPhaseError")]),
    ("Boss.W_received", [("while", "_W.received")]),
@@ -613,10 +621,10 @@ def toy : Crypto where
   pakeStart := toyPakeStart
   pakeFinish s pw m :=
     let own := toyPakeStart s pw
-    if m = own then none else
+    if m = own then .refused else
     match m with
-    | 2 :: _ => some (if lexLe own m then 3 :: own.length :: (own ++ m) else 3 :: m.length :: (m ++ own))
-    | _ => none
+    | 2 :: _ => .key (if lexLe own m then 3 :: own.length :: (own ++ m) else 3 :: m.length :: (m ++ own))
+    | _ => .refused
   pakeEncode e := 5 :: e
   pakeDecode b := match b with
     | 5 :: e => .elem e
